@@ -116,7 +116,7 @@ def make_groups(chk, pid, rng, n_groups, thorough):
                           ('neighbour-order-reversed', geom.Conc(nbr_order='rev', strlabels=strl)),
                           ('neighbour-order-sorted+node-order', geom.Conc(order=list(reversed(range(len(inst['nodes'])))), nbr_order='sorted', strlabels=strl))):
                 hash_jobs.setdefault(0, []).append((gid, nm, {'inst': inst, 'cf': cf, 'conc': c.desc(), 'ops': ops},
-                                                    dict(tol=0, exact=False, tiefree_path=True)))
+                                                    dict(tol=0, exact=False, tiefree_path=False)))
             groups.append({'gid': gid, 'inst': inst, 'cf': cf, 'ops': ops, 'runs': [], 'want_lat': True,
                            'check_robust': False, 'obs4': [], 'edges4': []})
             continue
@@ -137,7 +137,7 @@ def make_groups(chk, pid, rng, n_groups, thorough):
                 concs.append(('translate-1e7', geom.Conc(off=(10485760.0, 4194304.0)), 8, 4))
             for nm, c, tol, rel in concs:
                 ev = run_one(inst, cf, c, ops)
-                runs.append(obs_of(ev, nm, tol=tol, rel=rel, exact=False, tiefree_path=True))
+                runs.append(obs_of(ev, nm, tol=tol, rel=rel, exact=False, tiefree_path=False))
         elif pid == 'C17':
             cf = geom.gen_config(rng)
             latlon = rng.random() < 0.4
@@ -170,6 +170,7 @@ def make_groups(chk, pid, rng, n_groups, thorough):
             cf['only_edges'] = True
             cf['max_dist_init'] = 1.0e6
             ops = rand_ops(rng, T, cf)
+            inst['linked'] = []          # linked edges are not part of "the same nodes and directed edges"
             base = run_one(inst, cf, geom.Conc(backend='inmem'), ops)
             runs.append(obs_of(base, 'InMemMap'))
             ev = run_one(inst, cf, geom.Conc(backend='sqlite'), ops)
